@@ -39,6 +39,7 @@ func RegisterAll() {
 	run.Register(&c15{})
 	run.Register(&c16{})
 	run.Register(&c17{})
+	run.Register(&c18{})
 	run.Register(&c19{})
 	run.Register(&c20{})
 }
